@@ -13,8 +13,9 @@ def run(ctx):
     tl2gen = gen.tool(ctx, "tl2gen")
     tlgen = gen.tool(ctx, "tlgen")
     r = core.stream(ctx.seed, "c24")
-    n = 300 if thorough else 36
-    kinds = ["explicit-explicit", "implicit-explicit", "function-constructor", "explicit-zero", "implicit-zero", "tl2-magic-vs-tl1", "tl2-magic-zero", "tl2-magic-twice"]
+    n = 390 if thorough else 52
+    kinds = ["explicit-explicit", "implicit-explicit", "function-constructor", "explicit-zero", "implicit-zero", "tl2-magic-vs-tl1", "tl2-magic-zero", "tl2-magic-twice",
+             "bool-bool", "bool-zero", "wrapper-constructor", "wrapper-wrapper", "wrapper-tl2-magic"]
     stats = {}
 
     def lint(which, files):
@@ -86,6 +87,26 @@ def run(ctx):
             (d1, c1) = r.pick(explicit)
             tagtext = "%08x" % c1.tag
             files = {"s.tl": base, "t.tl2": "zq.fn#%08x x:int32 => int32;\n" % c1.tag}
+        elif kind == "bool-bool":
+            tagtext = "bc799737"
+            files = {"s.tl": base.replace("boolTrue#997275b5", "boolTrue#bc799737")}
+        elif kind == "bool-zero":
+            tagtext = "tag 0|#00000000|magic should not be 0"
+            files = {"s.tl": base.replace("boolFalse#bc799737", "boolFalse#00000000")}
+        elif kind == "wrapper-constructor":
+            (d1, c1) = r.pick(ctors)
+            old = (c1.tag, c1.explicit)
+            c1.tag, c1.explicit = 0xa8509bda, True
+            text = s.text()
+            c1.tag, c1.explicit = old
+            tagtext = "a8509bda"
+            files = {"s.tl": text}
+        elif kind == "wrapper-wrapper":
+            tagtext = "a8509bda"
+            files = {"s.tl": base.replace("long#22076cba", "long#a8509bda")}
+        elif kind == "wrapper-tl2-magic":
+            tagtext = "b5286e24"
+            files = {"s.tl": base, "t.tl2": "zq.fn#b5286e24 x:int32 => int32;\n"}
         elif kind == "tl2-magic-zero":
             tagtext = "magic should not be 0|tag 0|#00000000"
             files = {"s.tl": base, "t.tl2": "zq.fn#00000000 x:int32 => int32;\n"}
